@@ -34,6 +34,12 @@ func VerifH_C07_close() {
 	}
 	variant := MuxerVariant(verifParam("VARIANT", 3))
 	tr := verifVideoTrack()
+	tracks := []*Track{tr}
+	withAudio := verifParam("AUDIO", 0) == 1 && variant != MuxerVariantMPEGTS
+	if withAudio {
+		// a second stream (audio rendition) that receives no data: requests for its playlist pend until Close
+		tracks = append(tracks, verifAudioTrack(""))
+	}
 	segCount := 3
 	if variant == MuxerVariantLowLatency {
 		segCount = 7
@@ -43,7 +49,7 @@ func VerifH_C07_close() {
 		SegmentCount:       segCount,
 		SegmentMinDuration: time.Duration(verifParam("SEGMIN_MS", 1000)) * time.Millisecond,
 		PartMinDuration:    200 * time.Millisecond,
-		Tracks:             []*Track{tr},
+		Tracks:             tracks,
 		Directory:          verifDirectory(),
 		OnEncodeError:      func(error) {},
 	}
@@ -63,8 +69,19 @@ func VerifH_C07_close() {
 	var ws []*vWaiter
 	nw := 1 + verifChoice("nwaiters", 2)
 	for i := 0; i < nw; i++ {
-		w := &vWaiter{kind: verifChoice("wkind", 4)}
+		nk := 4
+		if withAudio {
+			nk = 6
+		}
+		w := &vWaiter{kind: verifChoice("wkind", nk)}
 		switch w.kind {
+		case 4:
+			w.uri = "audio2_stream.m3u8"
+		case 5:
+			if variant != MuxerVariantLowLatency {
+				continue
+			}
+			w.uri = "audio2_stream.m3u8?_HLS_msn=8"
 		case 0:
 			w.uri = "index.m3u8"
 		case 1:
@@ -112,6 +129,9 @@ func VerifH_C07_close() {
 	}
 	if variant == MuxerVariantLowLatency {
 		late = append(late, &vWaiter{uri: sid + "_stream.m3u8?_HLS_msn=9&_HLS_part=0"})
+	}
+	if withAudio {
+		late = append(late, &vWaiter{uri: "audio2_stream.m3u8"})
 	}
 	for _, w := range late {
 		w.start(m)
